@@ -267,8 +267,8 @@ async fn run_pipe(kind: usize, cap: usize, ops: &[&str]) -> String {
             let body = match guide.and_then(|g| g.get(opi)).and_then(|g| g.strip_prefix('n')).and_then(|n| n.parse::<usize>().ok()) {
                 Some(k) if body.starts_with('v') => {
                     let all: Vec<u8> = body[1..].split(',').flat_map(unhex).collect();
-                    prefix = format!("w{}", hex(&all[..k.min(all.len())]));
-                    &prefix[..]
+                    // (everything accepted - also when there was nothing to accept: the very same call)
+                    if k >= all.len() { body } else { prefix = format!("w{}", hex(&all[..k])); &prefix[..] }
                 }
                 _ => body,
             };
